@@ -186,9 +186,12 @@ impl Record {
 
         let line_base_count = self.line_base_count.get();
         let line_width = self.line_width.get();
-        let pos = self.position() + start / line_base_count * line_width + start % line_base_count;
 
-        Ok(pos)
+        (start / line_base_count)
+            .checked_mul(line_width)
+            .and_then(|n| n.checked_add(start % line_base_count))
+            .and_then(|n| n.checked_add(self.position()))
+            .ok_or_else(|| io::Error::new(io::ErrorKind::InvalidData, "position overflow"))
     }
 }
 
